@@ -428,6 +428,16 @@ def unit(p, item, tier, seed):
             c, src = history_circuit(rnd, f"{arg}:{i}")
             if c is not None:
                 check_circuit(p, f"history[{arg}:{i}]", c, rnd, exhaustive_starts=False, build_src=src)
+                if i % 2 == 0 and c.gates:
+                    # a call the circuit rejects (the caller catches the error), then the traversals
+                    labs = list(c.gates)
+                    ops = (rnd.choice(labs), "missing_gate") if rnd.random() < 0.7 else ("missing_gate", rnd.choice(labs))
+                    rej = f"\ntry:\n    c.emplace_gate('rejected_gate', __import__('cirbo.core.circuit', fromlist=['gate']).gate.AND, {ops!r})\nexcept Exception:\n    pass\n"
+                    try:
+                        c.emplace_gate("rejected_gate", G.AND, ops)
+                    except Exception:  # noqa: BLE001
+                        pass
+                    check_circuit(p, f"history[{arg}:{i}]/after-a-rejected-call", c, rnd, exhaustive_starts=False, build_src=src + rej)
     elif kind == "replace":
         for i in range(60 if tier == "quick" else 200):
             c, src = replace_history(rnd, f"{arg}:{i}")
